@@ -110,6 +110,7 @@ InitState ==
               timerAcc |-> 0, now |-> 0,
               world |-> [e \in Ent |-> EntInit],
               remEv |-> [e \in Ent |-> {}],
+              remEvOld |-> [e \in Ent |-> {}],   \* Bevy keeps removal events for two frames
               despawnBuf |-> EmptyFn, removalBuf |-> EmptyFn,
               cl |-> [c \in Client |-> SrvClientInit]],
      net |-> [c \in Client |-> NetInit],
@@ -260,13 +261,14 @@ CleanupAcks(scl, now) ==
 (* buffer_removals: runs every frame while the server is running *)
 
 BufferRemovals(srv) ==
-    LET touched == {e \in Ent : srv.remEv[e] # {} /\ srv.world[e].alive /\ srv.world[e].repl}
+    LET ev == [e \in Ent |-> srv.remEv[e] \cup srv.remEvOld[e]]
+        touched == {e \in Ent : ev[e] # {} /\ srv.world[e].alive /\ srv.world[e].repl}
         newBuf == [e \in (DOMAIN srv.removalBuf) \cup touched |->
                       IF e \in touched
-                      THEN IF Impl.removalOverwrite THEN srv.remEv[e]
-                           ELSE Get(srv.removalBuf, e, {}) \cup srv.remEv[e]
+                      THEN IF Impl.removalOverwrite THEN ev[e]
+                           ELSE Get(srv.removalBuf, e, {}) \cup ev[e]
                       ELSE srv.removalBuf[e]]
-    IN [srv EXCEPT !.removalBuf = newBuf, !.remEv = [e \in Ent |-> {}]]
+    IN [srv EXCEPT !.removalBuf = newBuf, !.remEv = [e \in Ent |-> {}], !.remEvOld = [e \in Ent |-> {}]]
 
 ----------------------------------------------------------------------------
 (* send_replication for one client.  Returns the new per-client record, the update message
@@ -399,7 +401,9 @@ SrvFramePre(st, doTick, dt) ==
                  THEN [s EXCEPT !.srv.timerAcc = IF fire THEN acc % Timeout ELSE acc,
                                 !.srv.cl = IF fire THEN [c \in Client |-> CleanupAcks(@[c], s.srv.now)] ELSE @]
                  ELSE s
-        A3(s) == IF s.srv.running THEN [s EXCEPT !.srv = BufferRemovals(@)] ELSE s
+        \* while the server is stopped nobody reads the removal events and they expire after two frames
+        A3(s) == IF s.srv.running THEN [s EXCEPT !.srv = BufferRemovals(@)]
+                 ELSE [s EXCEPT !.srv.remEvOld = s.srv.remEv, !.srv.remEv = [e \in Ent |-> {}]]
     IN Then(A0(st), LAMBDA s0 : Then(A1(s0), LAMBDA s1 : Then(A2(s1), A3)))
 
 WillReplicate(stPre) == stPre.srv.running /\ stPre.srv.tickChanged
